@@ -141,6 +141,10 @@ func c14exec(src string) (jx.Res, []string) {
 
 func c14run(c *fw.Ctx, idx int) {
 	r := c.Rand(idx, "c14")
+	if idx < nRebind {
+		rebindCase(c, idx, "C14")
+		return
+	}
 	switch idx % 5 {
 	case 3:
 		c14errors(c, idx, r)
